@@ -17,7 +17,8 @@
 From AV Require Import Base.Bytes Base.Outcome Hash.HashModel Spec.SpecReal Tree.Heap Tree.Ops Tree.Compat Tree.CompatSpec
   Tree.CompatProofs1 Tree.CompatProofs2 Tree.CompatProofs3 Tree.CompatProofs4 Tree.Serialize
   Tree.CompatTyped Tree.CompatProofs5 Tree.CompatReal Tree.CompatBridge Tree.CompatProofs6 Tree.CompatProofs7 Tree.CompatProofs8
-  Tree.CompatHist1 Tree.CompatHist4 Tree.CompatHist5 Tree.CompatHist6 Tree.CompatHistReal.
+  Tree.CompatHist1 Tree.CompatHist4 Tree.CompatHist5 Tree.CompatHist6 Tree.CompatHistReal
+  Tree.CompatSerLink Tree.CompatSerLink2.
 From AV Require Tree.Inv Tree.Script Tree.Script2.
 From AV Require Xml.Serializer Xml.RoundTripCanonb.
 From AV Require Xml.Parser.
@@ -310,3 +311,40 @@ Theorem C17_exact_histories2_real_partial : forall (tab_el tab_at tab_en : namet
   ok_ops2 RT tab_el tab_at tab_en check_fn float_parse float_fmt LATEST name_index name_definition_ref attr_schema_location root_attrs l Inv.empty_world ->
   forall (f v : N) (r : cres), f_check RT w f v = Val r -> (fst r = [] <-> ValidIn RT w f v).
 Proof. exact exact_histories2_real. Qed.
+
+(* ================= the serializer link: the heap serializer writes the text of the projection =================
+   SerCond T w f v : for every node strict validation of file f visits: the stored type and the v-type have the same content mode
+                     (true whenever their datatypes are equal), a Characters-mode node does not start with a sub-element, and a
+                     node with content keeps at least one item in the file (else the heap writes <X>..</X>, the projection <X/>) *)
+(* [U] Element::serialize_internal with the file filter = ser_elem of the v-typed projection, on every visited node *)
+Theorem C17_ser_heap_is_projection : forall (T : tables) (tab_el tab_at tab_en : nametab) (float_fmt : N -> list N)
+    (w : world) (f v : N), SerCond T w f v ->
+  forall (fuel : nat) (ty : N * N) (i : id) (t : Xml.Parser.etree) (indent : nat) (inline : bool),
+  Vis T w f v ty i -> vproj T w f v fuel ty i = Some t ->
+  ser_heap T tab_el tab_at tab_en float_fmt fuel w (Some f) i indent inline =
+  Xml.Serializer.ser_elem T tab_el tab_at tab_en float_fmt t indent inline.
+Proof. exact ser_heap_vproj. Qed.
+
+(* [U] ArxmlFile::serialize: the returned text is the header plus the serialization of the projection of the world it leaves
+   behind (root xsi:schemaLocation rewritten) *)
+Theorem C17_file_text_is_projection : forall (T : tables) (tab_el tab_at tab_en : nametab) (check_fn : N -> list N -> res bool)
+    (float_fmt : N -> list N) (attr_schema_location : N) (w : world) (f v : N) (text : list N) (w1 : world) (t : Xml.Parser.etree),
+  f_serialize T tab_el tab_at tab_en check_fn float_fmt attr_schema_location f w = Val (OK text, w1) ->
+  SerCond T w1 f v -> file_tree T w1 f v t ->
+  exists fl body, nth_opt (w_files w1) (N.to_nat f) = Some fl /\
+    text = Xml.Serializer.xml_header (f_standalone fl) ++ body /\
+    Xml.Serializer.ser_elem T tab_el tab_at tab_en float_fmt t 0 false = Val body.
+Proof. exact heap_text_is_projection. Qed.
+
+(* [U] end to end for the ACTUAL text: canonical projection (decidable) + SerCond => the text ArxmlFile::serialize returns loads
+   strictly as v, silently, back to the projection *)
+Theorem C17_file_text_loads : forall (T : tables) (tab_el tab_at tab_en : nametab) (check_fn : N -> list N -> res bool)
+    (float_fmt : N -> list N) (float_parse : list N -> option N) (attr_schema_location : N)
+    (w : world) (f v : N) (text : list N) (w1 : world) (t : Xml.Parser.etree),
+  f_serialize T tab_el tab_at tab_en check_fn float_fmt attr_schema_location f w = Val (OK text, w1) ->
+  SerCond T w1 f v -> file_tree T w1 f v t ->
+  Xml.RoundTripCanonb.rootcanonb T tab_el tab_at tab_en check_fn float_fmt float_parse v t = true ->
+  exists fl st, nth_opt (w_files w1) (N.to_nat f) = Some fl /\
+    Xml.Parser.load true T tab_el tab_at tab_en check_fn float_parse text = Val (Xml.Parser.Ret t st) /\
+    Xml.Parser.p_warnings st = [] /\ Xml.Parser.p_version st = v /\ Xml.Parser.p_standalone st = f_standalone fl.
+Proof. exact heap_text_loads. Qed.
